@@ -59,6 +59,8 @@ class Contract:
     harness_module: str | None = None              # repository module whose names the harness sees
     inline_in_harness: bool = False                # callers inside a harness execute this function's real body
     float_model: str = "exact"                     # 'exact' | 'ieee': total_seconds() etc. with relative error 2**-53
+    cuts: dict = field(default_factory=dict)       # ordered lemma steps over the post-state: each is PROVED, then assumed for the next ones and the ensures
+    options: dict = field(default_factory=dict)    # engine switches for this function (e.g. {"json_loads": "object"})
     seq_lemmas: bool = False                       # state list.append element-wise as well (helps quantified index invariants)
     covers: dict = field(default_factory=dict)     # name -> post-state condition that must be REACHABLE on some normal return
     bounded: str | None = None                     # name of a bounded stand-in (replaylib/bounded.py); implies not proved
